@@ -582,7 +582,7 @@ func (b *brokerDomain) renderInbox(c *bclient) string {
 		case *packet.UnsubAck:
 			items = append(items, rendered{key: fmt.Sprintf("unsuback(%d)", x.MessageId)})
 		case *packet.Publish:
-			items = append(items, rendered{key: fmt.Sprintf("publish(t=%s,p=%s,q=%d,r=%d,d=%d", x.Topic, showHex(x.Payload), x.Header.Qos, b2i(x.Header.Retain), b2i(x.Header.Dup)), mid: x.MessageId, kind: "publish"})
+			items = append(items, rendered{key: fmt.Sprintf("publish(t=%s,p=%s,q=%d,r=%d,d=%d", safe(x.Topic), showHex(x.Payload), x.Header.Qos, b2i(x.Header.Retain), b2i(x.Header.Dup)), mid: x.MessageId, kind: "publish"})
 		case *packet.PubAck:
 			items = append(items, rendered{key: fmt.Sprintf("puback(%d)", x.MessageId)})
 		case *packet.PubRec:
@@ -977,13 +977,13 @@ func (b *brokerDomain) step(f []string) string {
 			rs = append(rs, showR(&r, false))
 		}
 		for _, s := range n.local.ListSessions() {
-			ls = append(ls, s.ID())
+			ls = append(ls, safe([]byte(s.ID())))
 		}
 		return showList(ss) + " " + showList(us) + " " + showList(rs) + " " + showList(ls)
 	case f[0] == "log" && len(f) == 2:
 		out := []string{}
 		for _, p := range b.nodes[atoi(f[1])].log.snapshot() {
-			out = append(out, fmt.Sprintf("%s=%s", p.Topic, showHex(p.Payload)))
+			out = append(out, fmt.Sprintf("%s=%s", safe(p.Topic), showHex(p.Payload)))
 		}
 		return "[" + strings.Join(out, " ") + "]"
 	case f[0] == "bycid" && len(f) == 4:
